@@ -20,6 +20,8 @@ fn main() {
     let rest = &args[2..];
     let code = match args[1].as_str() {
         "replay" => calls::replay(rest),
+        "random" => calls::random(rest),
+        "redo" => calls::redo(rest),
         other => {
             eprintln!("unknown subcommand {other}");
             2
